@@ -685,3 +685,162 @@ theorem step_colon (s s' : Sh) (σ σ' : St) (o : Op) (next : Option Tok) (consu
   · simp [hpq] at hsh
 
 end Occa.Expr
+
+namespace Occa.Expr
+open Occa.Gen
+
+theorem step_open_eq (σ : St) (o : Op) (next : Option Tok) (h : has o.ty T.pairStart = true) :
+    step σ (.op o) next =
+      .ok { cur := { out := [], ops := [{ op := o }], before := if σ.prevCastEnd then none else σ.prev },
+            stack := σ.cur :: σ.stack, prev := some (.op o) } := by
+  simp [step, h]
+
+theorem frame_not_pairEnd (f : Frame) (hf : f.ok) (hp : f.isPost = false) : has f.node.op.ty T.pairEnd = false := by
+  have key : ∀ o : Op, (has o.ty T.pairStart = true ∨ has o.ty T.leftUnary = true ∨ has o.ty T.binary = true) →
+      has o.ty T.pairEnd = false := by
+    intro o; revert o; exact forall_op (by decide +kernel)
+  exact key _ (frame_prev_kind f hf hp)
+
+/-- an opening `(`, `[` or `{` -/
+theorem step_open (s s' : Sh) (σ σ' : St) (o : Op) (next : Option Tok) (consumed : List Tok)
+    (cur : Lvl) (stk : List Lvl) (hinv : Inv s σ consumed cur stk) (h1 : has o.ty T.pairStart = true)
+    (hsh : shStep s (.op o) next = some s') (hst : step σ (.op o) next = .ok σ') :
+    ∃ cur' stk', Inv s' σ' (consumed ++ [.op o]) cur' stk' := by
+  rw [step_open_eq σ o next h1] at hst
+  simp only [Except.ok.injEq] at hst
+  obtain ⟨hrep, hgood⟩ := hinv.levels.cur_rep
+  have hmode := hinv.mode
+  let n : OpNode := { op := o }
+  let cur' : Lvl := { pre := [], base := some n, top := none }
+  have hcur'good : cur'.Good := by
+    refine ⟨⟨?_, by simp [cur', Lvl.fs, baseFrames], ?_⟩, by simp [cur'], by simp [cur']⟩
+    · intro f hf; simp [cur', Lvl.fs, baseFrames] at hf; subst hf; exact h1
+    · intro f hf e he; simp [cur', Lvl.fs, baseFrames] at hf; subst hf; simp [Frame.outs] at he
+  have htoks : allToks cur' (cur :: stk) = allToks cur stk ++ [Tok.op o] := by
+    simp [allToks, cur', Lvl.toks, Lvl.fs, baseFrames, scopeToks, topToks, Frame.toks, n, List.flatMap_append]
+  -- common tail of both cases
+  have finish : ∀ (inE : Bool),
+      s' = { needOperand := true, pendingQ := 0, content := .empty,
+             stack := { closerTy := shl1 o.ty, inE := inE, savedQ := s.pendingQ } :: s.stack,
+             prev := some (.op o), prevCastEnd := false } →
+      PairOk cur n { closerTy := shl1 o.ty, inE := inE, savedQ := s.pendingQ }
+        (if σ.prevCastEnd then none else σ.prev) →
+      ∃ cur' stk', Inv s' σ' (consumed ++ [.op o]) cur' stk' := by
+    intro inE hs' hpair
+    subst hs'; subst hst
+    refine ⟨cur', cur :: stk, ?_⟩
+    constructor
+    · exact Levels.push cur' cur stk _ σ.cur σ.stack _ s.stack n ⟨rfl, rfl⟩ hcur'good rfl hpair hinv.levels
+    · rw [htoks, hinv.toks]
+    · rfl
+    · rfl
+    · show PrevE _ _
+      refine ⟨rfl, fun f hf => by simp [cur', Lvl.fs, baseFrames] at hf; subst hf; rfl, ?_⟩
+      simp only [Bool.false_eq_true, if_false]
+      exact Or.inr ⟨Frame.opn n, [], rfl, rfl⟩
+    · rfl
+    · exact ⟨rfl, rfl⟩
+  by_cases hne : s.needOperand = true
+  · simp only [hne, if_true] at hmode
+    obtain ⟨htop, hnp, hprev⟩ := hmode
+    simp only [shStep, h1, if_true, hne] at hsh
+    by_cases hk : (has o.ty T.parentheses || has o.ty T.braces) = true
+    · simp only [hk, if_true, Option.some.injEq] at hsh
+      apply finish true hsh.symm
+      refine ⟨rfl, by simpa using hk, ⟨htop, hnp⟩, ?_, hinv.pending⟩
+      simp only [if_true]
+      rw [hinv.castEnd, hinv.prev]
+      by_cases hce : s.prevCastEnd = true
+      · simp [hce]
+      · simp only [hce, Bool.false_eq_true, if_false] at hprev ⊢
+        rcases hprev with ⟨_, hp⟩ | ⟨f, fs', hfs, hp⟩
+        · exact Or.inl hp
+        · exact Or.inr ⟨f.node.op, hp, frame_not_pairEnd f (hgood.frames.ok f (by rw [hfs]; simp)) (hnp f (by rw [hfs]; rfl))⟩
+    · simp [hk] at hsh
+  · simp only [hne, Bool.false_eq_true, if_false] at hmode
+    simp only [shStep, h1, if_true, hne, Bool.false_eq_true, if_false] at hsh
+    by_cases hk : ((has o.ty T.parentheses || has o.ty T.brackets) && !isPostfixTok s.prev) = true
+    · simp only [hk, if_true, Option.some.injEq] at hsh
+      simp only [Bool.and_eq_true, Bool.not_eq_true'] at hk
+      obtain ⟨hkinds, hnotpost⟩ := prevO_kinds hmode hgood
+      obtain ⟨hce, hm, _⟩ := hmode
+      apply finish false hsh.symm
+      have hnp := hnotpost hk.2
+      refine ⟨rfl, by simpa using hk.1, ⟨?_, hnp⟩, ?_, hinv.pending⟩
+      · simp only [Bool.false_eq_true, if_false]
+        rcases hm with ⟨h, _⟩ | ⟨_, n', e, fs', hfs⟩
+        · exact h
+        · have := hnp (Frame.post n' e) (by rw [hfs]; rfl); simp [Frame.isPost] at this
+      · simp only [Bool.false_eq_true, if_false]
+        rw [hinv.castEnd, hinv.prev, hce]
+        simp only [Bool.false_eq_true, if_false]
+        rcases hkinds with h | h | ⟨p, hp, hpr⟩
+        · exact Or.inl h
+        · exact Or.inr h
+        · rw [hp] at hk; simp [isPostfixTok, hpr] at hk
+    · simp [hk] at hsh
+
+end Occa.Expr
+
+namespace Occa.Expr
+open Occa.Gen
+
+/-! ### closing a pair -/
+
+theorem pair_match : ∀ a b : Op, has a.ty T.pairStart = true → (b.ty == shl1 a.ty) = true →
+    (a = .parenthesesStart ∧ b = .parenthesesEnd) ∨ (a = .braceStart ∧ b = .braceEnd) ∨
+    (a = .bracketStart ∧ b = .bracketEnd) ∨ (a = .cudaCallStart ∧ b = .cudaCallEnd) := by
+  intro a; revert a
+  apply forall_op
+  have : ∀ a ∈ Op.all, ∀ b ∈ Op.all, has a.ty T.pairStart = true → (b.ty == shl1 a.ty) = true →
+    (a = .parenthesesStart ∧ b = .parenthesesEnd) ∨ (a = .braceStart ∧ b = .braceEnd) ∨
+    (a = .bracketStart ∧ b = .bracketEnd) ∨ (a = .cudaCallStart ∧ b = .cudaCallEnd) := by decide +kernel
+  intro a ha b
+  exact this a ha b (mem_all b)
+
+theorem scopeOut_base (pre : List Frame) (b : Option OpNode) (top : Option Expr) :
+    scopeOut (pre ++ baseFrames b) top = scopeOut pre top := by
+  cases b <;> simp [scopeOut, baseFrames, Frame.outs]
+
+theorem scopeOps_base (pre : List Frame) (n : OpNode) :
+    scopeOps (pre ++ baseFrames (some n)) = scopeOps pre ++ [n] := by
+  simp [scopeOps, baseFrames, Frame.node]
+
+theorem scopeToks_base (pre : List Frame) (n : OpNode) (top : Option Expr) :
+    scopeToks (pre ++ baseFrames (some n)) top = Tok.op n.op :: scopeToks pre top := by
+  simp [scopeToks, baseFrames, Frame.toks]
+
+theorem FramesOk.prefix {a b : List Frame} (h : FramesOk (a ++ b)) : FramesOk a := by
+  refine ⟨fun f hf => h.ok f (by simp [hf]), fun f hf => ?_, fun f hf => h.nocolon f (by simp [hf])⟩
+  cases a with
+  | nil => simp at hf
+  | cons x xs => exact h.post f (by simp at hf ⊢; exact Or.inl hf)
+
+theorem questCount_zero_base (pre : List Frame) (n : OpNode) (hno : ∀ f ∈ pre, f.isOpn = false)
+    (h : questCount (pre ++ baseFrames (some n)) = 0) : ∀ f ∈ pre, f.reducible = true := by
+  induction pre with
+  | nil => simp
+  | cons x xs ih =>
+    have hx := hno x (by simp)
+    simp only [List.cons_append, questCount, hx, Bool.false_eq_true, if_false] at h
+    intro f hf
+    simp only [List.mem_cons] at hf
+    rcases hf with rfl | hf
+    · cases hq : f.isQuest
+      · simp [Frame.reducible, hx, hq]
+      · simp [hq] at h
+    · exact ih (fun g hg => hno g (by simp [hg])) (by omega) f hf
+
+theorem apply_pairEnd (o : Op) (prev : Option Tok) (out : List Expr) (h : has o.ty T.pairEnd = true) :
+    applyOperator { op := o } prev out =
+      .ok (match out with
+           | v :: rest => if !isPairStartTok prev then .pair o v :: rest else .pair o .empty :: v :: rest
+           | [] => [.pair o .empty]) := by
+  obtain ⟨_, _, f3, f4, f5, f6⟩ := pairEnd_facts o h
+  cases out with
+  | nil => simp [applyOperator, f3, f4, f5, f6]
+  | cons v rest =>
+    simp only [applyOperator, f3, f4, f5, f6, Bool.false_eq_true, if_false, if_true]
+    split <;> rfl
+
+end Occa.Expr
